@@ -169,6 +169,60 @@ def check_mol(smi):
     return Outcome(nontrivial=bool(want_h), outcome=f"H{min(want_h or 0, 9)}", fails=fails, transitions=n)
 
 
+# ------------------------------------------------------------------ partially explicit molecules
+def partially_explicit(smi):
+    """writings of the molecule in which one atom has one of its hydrogens as an atom and the others as a count"""
+    m0 = Chem.MolFromSmiles(smi)
+    out = []
+    for a in m0.GetAtoms():
+        if a.GetTotalNumHs() >= 2 and len(out) < (2 if TIER[0] == "quick" else 6):
+            m = Chem.RWMol(m0)
+            b = m.GetAtomWithIdx(a.GetIdx())
+            nh = b.GetTotalNumHs()
+            h = m.AddAtom(Chem.Atom(1))
+            m.AddBond(a.GetIdx(), h, Chem.BondType.SINGLE)
+            b.SetNumExplicitHs(nh - 1)
+            b.SetNoImplicit(True)
+            out.append(Chem.MolToSmiles(m, canonical=False))
+    return out
+
+
+def check_partial(smi):
+    from synkit.IO.chem_converter import smiles_to_graph, graph_to_smi
+    from synkit.Graph.Hyrogen._misc import h_to_explicit, h_to_implicit
+
+    fails = []
+    n = 0
+    want = canon_noh(smi)
+    want_h = total_h(smi)
+    ws = partially_explicit(smi)
+    for w in ws:
+        g = smiles_to_graph(w)
+        n += 1
+        if g is None:
+            fails.append(Fail("smiles_to_graph", f"{w}: None", "a graph"))
+            break
+        mixed = any(d.get("element") != "H" and d.get("hcount", 0) > 0 and any(g.nodes[u].get("element") == "H" for u in g[v]) for v, d in g.nodes(data=True))
+        if not mixed:
+            continue
+        view = graph_view(g)
+        for name, fn in (("h_to_implicit", h_to_implicit), ("h_to_explicit", h_to_explicit)):
+            h = fn(g)
+            o = graph_to_smi(h)
+            n += 2
+            nh_nodes = sum(1 for _, d in h.nodes(data=True) if d.get("element") == "H")
+            heavy_h = sum(d.get("hcount", 0) for _, d in h.nodes(data=True) if d.get("element") != "H")
+            if o is None or canon_noh(o) != want or total_h(o) != want_h or nh_nodes + heavy_h != want_h:
+                fails.append(Fail("partially_explicit", f"{w}: {name} gives {o} with {nh_nodes} H atoms + {heavy_h} counted", f"{want} with {want_h} H", key_extra=name))
+                break
+            if graph_view(g) != view:
+                fails.append(Fail("h_conversion_mutates_input", f"{w}: {name}", "input graph unchanged", key_extra=name))
+                break
+        if fails:
+            break
+    return Outcome(nontrivial=bool(ws), outcome=f"partial{min(len(ws), 9)}", fails=fails, transitions=n)
+
+
 # ------------------------------------------------------------------ GML
 def rule_eq_node(a, b):
     return a.get("element") == b.get("element") and _ch(a) == _ch(b)
@@ -226,6 +280,23 @@ def check_gml(case):
                 if not rm.isomorphic(rc, back, rule_eq_node, rule_eq_edge):
                     fails.append(Fail("gml_roundtrip", f"{tag} reindex={reindex}: rule read back differs from the centre", "same atoms, charges and (before, after) orders", key_extra=f"{tag},{reindex}"))
                     return Outcome(nontrivial=True, outcome="gml", fails=fails, transitions=n)
+        # (3b) explicit-hydrogen export adds hydrogen atoms by design: the heavy-atom part must still be the rule
+        def heavy(g):
+            return g.subgraph([x for x, d in g.nodes(data=True) if d.get("element") != "H"]).copy()
+
+        for core in (True, False):
+            for reindex in (True, False):
+                try:
+                    back = gml_to_its(its_to_gml(its, core=core, reindex=reindex, explicit_hydrogen=True))
+                except Exception as e:
+                    back = None
+                    err = f"{type(e).__name__}: {e}"
+                n += 2
+                want = heavy(rc if core else its)
+                if back is None or not rm.isomorphic(want, heavy(back), rule_eq_node, rule_eq_edge):
+                    fails.append(Fail("gml_explicit_hydrogen", f"{tag} core={core} reindex={reindex}: " + (err if back is None else f"heavy atoms read back {heavy(back).number_of_nodes()} / bonds {heavy(back).number_of_edges()}"),
+                                      f"the heavy-atom part of the {'centre' if core else 'full ITS'} ({want.number_of_nodes()} atoms / {want.number_of_edges()} bonds)", key_extra=f"{tag},{core},{reindex}"))
+                    return Outcome(nontrivial=True, outcome="gml", fails=fails, transitions=n)
         # (4) the documented routes give equivalent rules
         for core in (True, False):
             for reindex in (False, True):
@@ -251,6 +322,8 @@ def subchecks(tier, seed):
     TIER[0], SEED[0] = tier, seed
     return [
         Sub("molecules", gen_mol, check_mol, key=lambda c: c, rule=RULE[tier]),
+        Sub("partially_explicit", gen_mol, check_partial, key=lambda c: c, rule="every molecule written with one hydrogen of an atom as an atom and the atom's other hydrogens as a count (2 such atoms each; thorough 6): "
+            "h_to_implicit and h_to_explicit keep the molecule and the hydrogen total and do not touch their input"),
         Sub("gml", gen_rxn, check_gml, key=lambda c: c[0], rule=RULE[tier]),
     ]
 
